@@ -505,6 +505,18 @@ def _check_program(cell, case, ctx):
                         same_stored = obs.system_of(ops[0]) == obs.system_of(ops[1]) and tuple(obs.stored(ops[0])) == tuple(obs.stored(ops[1]))
                         if not same_stored and opcheck.vec_close(c1_, c2_, mpf("1e-12"), R.scale_of(c1_, c2_)):
                             stable = False
+                    if two and keep[i][0].startswith("isclose"):
+                        # the same vector stored in two systems (offset below rounding) against tolerances below rounding: decided
+                        # by the last bit of a conversion
+                        c1_, c2_ = obs.cart_of(ops[0]), obs.cart_of(ops[1])
+                        sc_ = R.scale_of(c1_, c2_)
+                        if keep[i][0] == "isclose":
+                            tol_eff = mpf("1e-8") + mpf("1e-5") * sc_
+                        else:
+                            tol_eff = mpf(case["sc"]["s_atol"]) + mpf(case["sc"]["s_rtol"]) * sc_
+                        same_stored = obs.system_of(ops[0]) == obs.system_of(ops[1]) and tuple(obs.stored(ops[0])) == tuple(obs.stored(ops[1]))
+                        if not same_stored and opcheck.vec_close(c1_, c2_, mpf("1e-12"), sc_) and tol_eff < mpf("1e-11") * sc_:
+                            stable = False
                     if keep[i][0] in catalog.OPS and keep[i][1] is None:
                         # distance of the exact decision value from its threshold (zero-width for tolerance 0)
                         try:
